@@ -14,7 +14,7 @@ from vf.core.state import digest
 
 ID = "C20"
 RULE = (
-    "for each base mesh: variants = {same, rebuilt, copy()} + every single-entry perturbation of lon, lat (by 0.25 deg; and by one ulp, 1e-9, 1e-6 deg), "
+    "for each base mesh: variants = {same, rebuilt, copy(), copy() with one lon / lat / connectivity entry overwritten in place} + every single-entry perturbation of lon, lat (by 0.25 deg; and by one ulp, 1e-9, 1e-6 deg), "
     "the plain variants again with lazily derived quantities materialised on one side only (edge tables / node_face / everything), "
     "face-node table (to another valid node; to fill), +1 node, +1/-1 face, other source spec; all ordered pairs "
     "(i, j) are compared; non-trivial = pairs whose two members differ in exactly one component or are equal-by-content "
@@ -88,6 +88,17 @@ def variants(mesh):
     l2 = lon.copy()
     l2[i0] = l2[i0] + 0.25
     out.append(({"v": "lon", "i": i0, "mat": "all", "extra": True}, S, l2, lat, tab))
+    # a single entry changed IN PLACE on a copy() of the base grid (the copy must differ, the base must not follow)
+    for i in sorted({0, len(lon) - 1}):
+        l2 = lon.copy()
+        l2[i] = l2[i] + 0.5 if l2[i] < 170 else l2[i] - 0.5
+        out.append(({"v": "lon", "i": i, "via": "copy-edit", "extra": True}, S, l2, lat, tab))
+        l3 = lat.copy()
+        l3[i] = l3[i] + 0.5 if l3[i] < 80 else l3[i] - 0.5
+        out.append(({"v": "lat", "i": i, "via": "copy-edit", "extra": True}, S, lon, l3, tab))
+    t2 = tab.copy()
+    t2[0, 0] = (tab[0, 0] + 1) % nn
+    out.append(({"v": "conn", "f": 0, "j": 0, "via": "copy-edit", "extra": True}, S, lon, lat, t2))
     return out
 
 
@@ -103,6 +114,15 @@ def build(v, cache):
     import xarray as xr
 
     d, spec, lon, lat, tab = v
+    if d.get("via") == "copy-edit":
+        g = cache["base"].copy()
+        if d["v"] == "lon":
+            g.node_lon.values[d["i"]] = lon[d["i"]]
+        elif d["v"] == "lat":
+            g.node_lat.values[d["i"]] = lat[d["i"]]
+        else:
+            g.face_node_connectivity.values[d["f"], d["j"]] = tab[d["f"], d["j"]]
+        return g
     if d["v"] == "copy":
         g = cache["base"].copy()
         for a in MATS.get(d.get("mat"), ()):
